@@ -161,7 +161,7 @@ impl<F: Future> Future for CancelAt<F> {
 // ---- interpreter ------------------------------------------------------------
 struct Env {
   ctxs: Vec<Context>,
-  socks: HashMap<String, Socket>,
+  socks: Mutex<HashMap<String, Socket>>,
   vars: Mutex<HashMap<String, String>>,
   barriers: Mutex<HashMap<String, Arc<tokio::sync::Barrier>>>,
   raws: tokio::sync::Mutex<HashMap<String, tokio::net::TcpStream>>,
@@ -185,8 +185,9 @@ fn subst(env: &Env, s: &str) -> String {
   }
 }
 
-fn ms(env: &Env) -> u128 {
-  env.t0.elapsed().as_millis()
+fn ms(_env: &Env) -> u128 {
+  // the clock the hook events inside rzmq use
+  rzmq::verif::elapsed_ms()
 }
 
 fn res_str<T>(r: &Result<T, ZmqError>) -> String {
@@ -233,7 +234,7 @@ async fn with_timeout<T, F: Future<Output = Result<T, ZmqError>>>(ms_: u64, f: F
 async fn run_op(env: Arc<Env>, task: String, op: Value) {
   let name = op["op"].as_str().unwrap_or("?").to_string();
   let sname = op["sock"].as_str().unwrap_or("").to_string();
-  let sock = env.socks.get(&sname).cloned();
+  let sock = env.socks.lock().unwrap().get(&sname).cloned();
   env.inflight.lock().unwrap().insert(task.clone(), format!("{} {}", name, sname));
   let tmo = op["timeout_ms"].as_u64().unwrap_or(0);
   match name.as_str() {
@@ -460,6 +461,14 @@ async fn run_op(env: Arc<Env>, task: String, op: Value) {
       let t1 = Instant::now();
       let r = with_timeout(tmo, s.close()).await;
       rec(&task, "ret", format!("\"op\":\"close\",\"sock\":\"{}\",\"res\":\"{}\",\"dur\":{},\"t\":{}", sname, res_str(&r), t1.elapsed().as_millis(), ms(&env)));
+    }
+    "drop" => {
+      // the application lets go of its last handle without calling close()
+      drop(sock);
+      rec(&task, "call", format!("\"op\":\"drop\",\"sock\":\"{}\",\"t\":{}", sname, ms(&env)));
+      let gone = env.socks.lock().unwrap().remove(&sname);
+      drop(gone);
+      rec(&task, "ret", format!("\"op\":\"drop\",\"sock\":\"{}\",\"res\":\"ok\",\"dur\":0,\"t\":{}", sname, ms(&env)));
     }
     "term" => {
       let ci = op["ctx"].as_u64().unwrap_or(0) as usize;
@@ -691,7 +700,7 @@ pub fn run_scenario(sc: &Scenario) -> RunResult {
     }
     let env = Arc::new(Env {
       ctxs,
-      socks,
+      socks: Mutex::new(socks),
       vars: Mutex::new(HashMap::new()),
       barriers: Mutex::new(HashMap::new()),
       raws: tokio::sync::Mutex::new(HashMap::new()),
